@@ -25,7 +25,18 @@ func c01Hub(x *Ctx) {
 	waiting := x.Chance("allow-waiting", 0.7)
 	// variant: B was a stored pairing (registered before Start) that the user
 	// cancels / unregisters before any connection exists - trust withdrawn
-	storedThenWithdrawn := PickB(x, "stored-then-withdrawn", 0.5, []string{"", "cancel", "unregister"})
+	withdrawModes := []string{"", "cancel", "unregister"}
+	if x.Feat(FeatWithdrawInDial) {
+		// ... or while A's own dial to the visible B is in flight / its handshake runs
+		withdrawModes = append(withdrawModes, "cancel-during-dial", "unregister-during-dial")
+	}
+	storedThenWithdrawn := PickB(x, "stored-then-withdrawn", 0.5, withdrawModes)
+	duringDial := storedThenWithdrawn == "cancel-during-dial" || storedThenWithdrawn == "unregister-during-dial"
+	withdrawGap := time.Duration(0)
+	if duringDial {
+		withdrawGap = []time.Duration{0, time.Millisecond, lat, 2 * lat, 3 * lat, 5 * lat, 9 * lat, 3 * time.Second}[x.Choose("withdraw-gap", 8)]
+	}
+	withdrawnSeq := 0
 	nOps := x.Choose("ops", 8)
 	var ops []string
 	for i := 0; i < nOps; i++ {
@@ -37,7 +48,7 @@ func c01Hub(x *Ctx) {
 	x.Go("B:start", func() {
 		b.create()
 		simrt.Recv("a", a.ready)
-		if storedThenWithdrawn != "" {
+		if storedThenWithdrawn != "" && !duringDial {
 			// B only appears after A's user has withdrawn the trust
 			simrt.Recv("a-started", aStarted)
 			simrt.Sleep(time.Second)
@@ -63,11 +74,17 @@ func c01Hub(x *Ctx) {
 			a.hub.RegisterRemoteSKI(b.ski)
 		}
 		a.hub.Start()
+		if duringDial && withdrawGap > 0 {
+			simrt.Sleep(withdrawGap)
+		}
 		switch storedThenWithdrawn {
-		case "cancel":
+		case "cancel", "cancel-during-dial":
 			a.hub.CancelPairingWithSKI(b.ski)
-		case "unregister":
+		case "unregister", "unregister-during-dial":
 			a.hub.UnregisterRemoteSKI(b.ski)
+		}
+		if duringDial {
+			withdrawnSeq = x.Ev("trust-withdrawn", storedThenWithdrawn, "", 0)
 		}
 		close(aStarted)
 		for _, op := range ops {
@@ -96,6 +113,20 @@ func c01Hub(x *Ctx) {
 			}
 		}
 		simrt.Sleep(100 * time.Second)
+		completedBeforeWithdrawal := false
+		if duringDial {
+			for _, e := range x.Events() {
+				if e.Kind == "app-setup" && e.A == "A" && e.B == b.ski && e.Seq < withdrawnSeq {
+					completedBeforeWithdrawal = true
+				}
+			}
+		}
+		if storedThenWithdrawn == "cancel-during-dial" && completedBeforeWithdrawal {
+			// nothing was pending any more: a cancel leaves a completed connection alone
+			x.Probe("cancel-after-completion")
+			x.S.Stop("done")
+			return
+		}
 		if st := a.hub.PairingDetailForSki(b.ski).State(); st == 5 || st == 7 {
 			x.Violate("pairing-detail-trusted-without-trust", "", fmt.Sprintf("hub A reports pairing state %d for B, which it never trusted", st))
 			return
@@ -110,6 +141,15 @@ func c01Hub(x *Ctx) {
 		pendingSeen := false
 		for _, e := range x.Events() {
 			if e.A != "A" {
+				continue
+			}
+			if duringDial && e.Seq < withdrawnSeq {
+				// B was trusted until the user withdrew the pairing
+				continue
+			}
+			if duringDial && e.Kind == "app-pairing" {
+				// delayed notifications may carry a state produced before the withdrawal;
+				// the states themselves are judged below, where they are produced
 				continue
 			}
 			switch e.Kind {
@@ -134,6 +174,25 @@ func c01Hub(x *Ctx) {
 						return
 					}
 				}
+			}
+		}
+		if duringDial {
+			x.Probe("withdrawn-during-dial")
+			dialled := false
+			for _, e := range x.Events() {
+				if e.Kind == "dial" && e.A == "A" && e.B == "B" && e.Seq < withdrawnSeq {
+					dialled = true
+				}
+				if e.Kind == "pairing-produced" && e.A == "A" && e.B == b.ski && e.Seq > withdrawnSeq {
+					if st := e.N / 1000000; st == 5 || st == 7 {
+						x.Violate("pairing-detail-trusted-without-trust", "after-withdrawal", fmt.Sprintf("hub A set pairing state %d for B after the user had withdrawn the pairing (%s, %v after Start)", st, storedThenWithdrawn, withdrawGap))
+						return
+					}
+				}
+			}
+			if dialled {
+				x.NonTrivial()
+				x.Probe("withdrawn-while-own-dial-in-flight")
 			}
 		}
 		if pendingSeen {
